@@ -1,7 +1,7 @@
 SPECIFICATION Spec
 CONSTANTS NLoops = 2  MaxConns = 2  MaxRegs = 1  ReusePort = TRUE  Ticker = TRUE
           Sources = {"stop", "open", "traffic", "close", "tick", "fail", "boot"}
-INVARIANTS TypeOK OnShutdownOnce AllOpenedClosedBeforeReturn NothingRunsAfterReturn BootShutdownStartsNothing
+INVARIANTS TypeOK OnShutdownOnce AllOpenedClosedBeforeReturn NothingRunsAfterReturn BootShutdownStartsNothing ListenersOutliveLoops
            MainLast InShutdownMeansDone LeakOnlyBehindExit QueuedIsInQueue UnansweredOnlyBehindExit
 PROPERTIES Termination LoopsFinish RegDeliveredOnce
 CHECK_DEADLOCK FALSE
